@@ -182,6 +182,13 @@ def run_fixtures(ctx):
         patch = os.path.join(d, "patch.current.diff")
         if not os.path.exists(patch):
             patch = os.path.join(d, "patch.diff")
+        try:
+            meta = json.load(open(os.path.join(d, "meta.json")))
+        except Exception:
+            meta = {}
+        if meta.get("expect_fire") is False:
+            res[name] = {"applied": None, "skipped": meta.get("status_on_current_tree", "not expected to fire on the current tree")}
+            continue
         tmp = tempfile.mkdtemp(prefix="vfix-", dir="/tmp")
         etmp = tempfile.mkdtemp(prefix="vfixev-", dir="/tmp")
         try:
